@@ -22,7 +22,7 @@ Fixpoint hist_covered (ct : ctable) (s : state) (roots : list val) (ops : list (
   match ops with
   | [] => true
   | (o, fa) :: t =>
-      owned_opg_b ct (heap s) roots o &&
+      owned_opi_b ct (heap s) roots o &&
       let '(r, s') := step ct roots o (mkst (heap s) 0 fa) in
       hist_covered ct s' (roots ++ [match r with Ok v => v | Err _ => VNone end]) t
   end.
@@ -36,7 +36,7 @@ Theorem history_preserves_owned ct :
 Proof.
   intros Hf Hn Hr. induction ops as [|[o fa] t IH]; intros s roots Hc T O; simpl in *; auto.
   apply andb_true_iff in Hc. destruct Hc as [H1 H2].
-  pose proof (step_preserves_owned_h ct roots o (mkst (heap s) 0 fa) Hf Hn Hr H1 T O) as [T1 O1].
+  pose proof (step_preserves_owned_i ct roots o (mkst (heap s) 0 fa) Hf Hn Hr H1 T O) as [T1 O1].
   destruct (step ct roots o (mkst (heap s) 0 fa)) as [r s'] eqn:E. simpl in T1, O1.
   apply IH; auto.
 Qed.
